@@ -123,6 +123,10 @@ func runCase(c *core.Ctx, i int) {
 		collectCase(c, rng)
 		return
 	}
+	if i%31 == 17 {
+		tmCase(c, rng)
+		return
+	}
 	switch x := rng.Intn(100); {
 	case x < 58:
 		layoutCase(c, rng, false)
